@@ -3,7 +3,10 @@
 #include "spec/specdefs.h"
 #ifdef HAVE_STRUCT_Arena
 #define MB struct Arena_ManagedBlock
-#define MAXBLK 4096u
+#define MAXBLK 512u
+#ifndef VERIF_MAXSHIFT
+#define VERIF_MAXSHIFT 12
+#endif
 uint64_t g_sz[3];                     /* ghost: payload sizes of the blocks of the chain */
 #define VERIF_GHOST_INIT() __CPROVER_havoc_object(g_sz)
 
@@ -12,7 +15,9 @@ static inline uint8_t* c_end(MB* b) { return c_data(b) + b->size; }
 #define ZERO_BLOCK ((MB*)&g_arena_zero_block)
 
 /* shape: _current_block = B0 -> [B1 -> [B2]] -> NULL, all distinct live heap objects; B0 is also the first block */
-#define BLK_FRESH(p, i) (__CPROVER_is_fresh(p, sizeof(MB) + g_sz[i]) && (p)->size == g_sz[i])
+/* blocks are modelled as objects of constant size sizeof(MB)+MAXBLK whose header announces a payload <= MAXBLK (symbolic-size
+ * objects made the solver run out of memory); every access the code makes must then lie inside the announced payload */
+#define BLK_FRESH(p, i) (__CPROVER_is_fresh(p, sizeof(MB) + MAXBLK) && (p)->size == g_sz[i])
 #define ARENA_CHAIN_PRE(self) \
   __CPROVER_requires(__CPROVER_is_fresh(self, sizeof(*self))) \
   __CPROVER_requires(g_sz[0] <= MAXBLK && g_sz[1] <= MAXBLK && g_sz[2] <= MAXBLK && (g_sz[0] % 8) == 0 && (g_sz[1] % 8) == 0 && (g_sz[2] % 8) == 0) \
@@ -21,8 +26,9 @@ static inline uint8_t* c_end(MB* b) { return c_data(b) + b->size; }
   __CPROVER_requires(self->_current_block->next == NULL || BLK_FRESH(self->_current_block->next, 1)) \
   __CPROVER_requires(self->_current_block->next == NULL || self->_current_block->next->next == NULL || BLK_FRESH(self->_current_block->next->next, 2)) \
   __CPROVER_requires(self->_current_block->next == NULL || self->_current_block->next->next == NULL || self->_current_block->next->next->next == NULL) \
-  __CPROVER_requires(self->_end == c_end(self->_current_block) && self->_ptr >= c_data(self->_current_block) && self->_ptr <= self->_end && ((uintptr_t)self->_ptr % 8) == 0) \
-  __CPROVER_requires(self->_current_block_size_shift >= 10 && self->_current_block_size_shift <= 26 && self->_max_block_size_shift == 26 && self->_min_block_size_shift >= 10 && self->_min_block_size_shift <= self->_current_block_size_shift)
+  __CPROVER_requires(self->_end == c_end(self->_current_block) && __CPROVER_same_object(self->_ptr, self->_current_block) && \
+     __CPROVER_POINTER_OFFSET(self->_ptr) >= sizeof(MB) && __CPROVER_POINTER_OFFSET(self->_ptr) <= sizeof(MB) + g_sz[0] && (__CPROVER_POINTER_OFFSET(self->_ptr) % 8) == 0) \
+  __CPROVER_requires(self->_current_block_size_shift >= 10 && self->_current_block_size_shift <= VERIF_MAXSHIFT && self->_max_block_size_shift == 26 && self->_min_block_size_shift >= 10 && self->_min_block_size_shift <= self->_current_block_size_shift)
 
 /* walks the chain from the first block: every link must be NULL or a live block (reading a freed block is itself a failed
  * obligation); returns 0 when well-formed, else a clause number */
@@ -37,13 +43,14 @@ static inline int c_arena_wf(const struct Arena* a) {
   }
   if (!seen_cur) return 1;                       /* the current block is reachable from the first one */
   if (a->_end != c_end(a->_current_block)) return 2;
-  if (a->_ptr > a->_end || a->_ptr < c_data(a->_current_block)) return 2;
+  if (!__CPROVER_same_object(a->_ptr, a->_current_block)) return 2;
+  if (__CPROVER_POINTER_OFFSET(a->_ptr) < sizeof(MB) || __CPROVER_POINTER_OFFSET(a->_ptr) > sizeof(MB) + a->_current_block->size) return 2;
   return 0;
 }
 
 #define CONTRACT_Arena__alloc_oneshot \
   ARENA_CHAIN_PRE(self) \
-  __CPROVER_requires(size % 8 == 0 && size >= 8 && size <= ((uint64_t)1 << 20)) \
+  __CPROVER_requires(size % 8 == 0 && size >= 8 && size <= ((uint64_t)1 << VERIF_MAXSHIFT)) \
   __CPROVER_assigns(*self, __CPROVER_object_whole(self->_current_block)) \
   __CPROVER_assigns(self->_current_block->next != NULL: __CPROVER_object_whole(self->_current_block->next)) \
   __CPROVER_frees(self->_current_block->next) \
@@ -52,8 +59,9 @@ static inline int c_arena_wf(const struct Arena* a) {
   __CPROVER_ensures(c_arena_wf(self) == 0) \
   /* A2 result: NULL (allocation failure) or an 8-aligned range [p, p+size) inside the (new) current block, ending at the bump pointer */ \
   __CPROVER_ensures(__CPROVER_return_value == NULL || \
-     (((uintptr_t)__CPROVER_return_value % 8) == 0 && (uint8_t*)__CPROVER_return_value >= c_data(self->_current_block) && \
-      (uint8_t*)__CPROVER_return_value + size == self->_ptr && self->_ptr <= self->_end)) \
+     ((__CPROVER_POINTER_OFFSET(__CPROVER_return_value) % 8) == 0 && __CPROVER_same_object(__CPROVER_return_value, self->_current_block) && \
+      __CPROVER_POINTER_OFFSET(__CPROVER_return_value) >= sizeof(MB) && (uint8_t*)__CPROVER_return_value + size == self->_ptr && \
+      __CPROVER_POINTER_OFFSET(self->_ptr) <= sizeof(MB) + self->_current_block->size)) \
   /* A3 a fresh block is used: never the block that was current on entry (its live allocations are untouched) */ \
   __CPROVER_ensures(__CPROVER_return_value == NULL || self->_current_block != __CPROVER_old(self->_current_block)) \
   /* A4 failure leaves the bump pointer alone */ \
